@@ -33,6 +33,9 @@ import (
 	"lunar/engine/routing"
 	stream_config "lunar/engine/streams/config"
 	lunar_context "lunar/engine/streams/lunar-context"
+	read_cache "lunar/engine/streams/processors/read-cache"
+	write_cache "lunar/engine/streams/processors/write-cache"
+	public_types "lunar/engine/streams/public-types"
 	stream_types "lunar/engine/streams/types"
 	"lunar/toolkit-core/verifhook"
 
@@ -397,6 +400,19 @@ func guarded(fn func() error) (msg string, panicked bool) {
 	return "", false
 }
 
+// projection of the engine's error message on the classes the specification names
+func errClass(msg string) string {
+	switch {
+	case msg == "":
+		return ""
+	case strings.Contains(msg, "invalid stream type"):
+		return "invalid-stream-type"
+	case strings.Contains(msg, "response not found"):
+		return "response-not-found"
+	}
+	return "other"
+}
+
 func doRequest(eng *c01eng.Engine, e Event) vh.Ev {
 	cur, marks = []vh.Ev{}, []int{}
 	args := lunar_messages.OnRequest{
@@ -408,6 +424,7 @@ func doRequest(eng *c01eng.Engine, e Event) vh.Ev {
 	curActs = acts
 	before := eng.S.GetFlowInvocations()
 	msg, panicked := guarded(func() error { return eng.S.ExecuteFlow(api, acts) })
+	api.StoreRequest() // routing.processRequest (full request message): defer apiStream.StoreRequest()
 	after := eng.S.GetFlowInvocations()
 	outcome := "ok"
 	if panicked {
@@ -440,7 +457,7 @@ func doRequest(eng *c01eng.Engine, e Event) vh.Ev {
 	}
 	x := vh.Ev{"side": "req", "url": []any{e.URL[0], nzs(e.URL[1])}, "method": e.Method, "hdr": pairsOf(e.Hdr), "qry": nz2(e.Qry), "status": 0}
 	return vh.Ev{"ev": "tx", "dir": "req", "id": e.ID, "sq": sq(e), "x": x, "body": e.Body, "seq": cur, "inv": invDelta(before, after),
-		"acts": list, "nresp": nresp, "out": out, "status": status, "outcome": outcome, "msg": msg}
+		"acts": list, "nresp": nresp, "out": out, "status": status, "outcome": outcome, "msg": msg, "errclass": errClass(msg)}
 }
 
 func nzs(s []string) []string {
@@ -460,6 +477,7 @@ func doResponse(eng *c01eng.Engine, e Event) vh.Ev {
 	acts := &stream_config.StreamActions{Request: &stream_config.RequestStream{}, Response: &stream_config.ResponseStream{}}
 	curActs = acts
 	msg, panicked := guarded(func() error { return eng.S.ExecuteFlow(api, acts) })
+	api.DiscardRequest() // routing.processResponse (full response message): defer apiStream.DiscardRequest()
 	outcome := "ok"
 	if panicked {
 		outcome = "panic"
@@ -484,8 +502,31 @@ func doResponse(eng *c01eng.Engine, e Event) vh.Ev {
 		out = decode(nil)
 	}
 	x := vh.Ev{"side": "resp", "url": []any{e.URL[0], nzs(e.URL[1])}, "method": e.Method, "hdr": pairsOf(e.Hdr), "qry": [][2]string{}, "status": e.Status}
-	return vh.Ev{"ev": "tx", "dir": "res", "id": e.ID, "sq": sq(e), "x": x, "body": e.Body, "seq": cur, "acts": list, "out": out,
-		"outcome": outcome, "msg": msg}
+	hsz := 0
+	for k, v := range e.Hdr {
+		hsz += len(k) + len(v)
+	}
+	return vh.Ev{"ev": "tx", "dir": "res", "id": e.ID, "sq": sq(e), "x": x, "body": e.Body, "bsz": len(e.Body), "hsz": hsz, "seq": cur,
+		"acts": list, "out": out, "outcome": outcome, "msg": msg, "errclass": errClass(msg)}
+}
+
+// joinCaches gives the ReadCache and the WriteCache processor of a flow one common store (what the shared state of a deployment
+// gives them; in this build every processor owns a private one): config "CacheJoin": [[flow, ReadCache key, WriteCache key],..]
+func joinCaches(eng *c01eng.Engine, cfg map[string]any) {
+	joins, _ := cfg["CacheJoin"].([]any)
+	for _, j := range joins {
+		t, _ := j.([]any)
+		if len(t) != 3 {
+			vh.Die("bad CacheJoin entry %v", j)
+		}
+		store := lunar_context.NewMemoryState[[]byte]()
+		for i, set := range []func(stream_types.ProcessorI, public_types.SharedStateI[[]byte]) bool{read_cache.VerifSetStore, write_cache.VerifSetStore} {
+			p, ok := eng.S.VerifProcessor(fmt.Sprint(t[0]), fmt.Sprint(t[i+1]))
+			if !ok || !set(p, store) {
+				vh.Die("CacheJoin: processor %v/%v not found or of the wrong kind", t[0], t[i+1])
+			}
+		}
+	}
 }
 
 func main() {
@@ -528,6 +569,7 @@ func main() {
 					if err != nil {
 						vh.Die("engine: %v", err)
 					}
+					joinCaches(eng, sc.Config)
 					shared = lunar_context.NewMemoryState[[]byte]()
 					lastReq = map[string]Event{}
 					tr.Add(vh.Ev{"ev": "reset", "now": now})
